@@ -100,7 +100,8 @@ def relations(d, ptxt, etxt, e2txt, inp, bad, out, tag, bound_e=None):
                 if multiset(zcheck.eng_results_any(r_let)) != want:
                     bad.append(("let-disturbs-stack", dict(w, want=len(want), got=len(r_let["res"]))))
             # the captured elements are E's TOS values in plain context
-            r_plain = q("%s %s" % (ptxt, etxt))
+            # (E in parentheses: an infix operator at the start of E would otherwise take the whole producer as its left operand)
+            r_plain = q("%s ( %s )" % (ptxt, etxt))
             if r_plain["st"] == "done":
                 tops = sorted(repr(zcmp.strip(s[-1])) for s in zcheck.eng_results_any(r_plain) if s)
                 elems = sorted(repr(zcmp.strip(x)) for s in caps for x in s[-1][1])
